@@ -212,7 +212,7 @@ def run(check, tier):
             viol.append({"kind": "wellformed", "msg": "sqlKeywords key longer than 32 bytes: %r" % k, "input": k})
 
     # ---- (c) every entry is returned by the real look-up code (executed in the engine, concrete mode)
-    rs = check.run_group("lookup-probes", BASE + H("h_tables.go"), [job("HTableProbe", [], maxsteps=400000000)], expect_labels=["probed"], witness_replay=False)
+    rs = check.run_group("lookup-probes", BASE + H("h_tables.go", "gen_vocab.go"), [job("HTableProbe", [], maxsteps=400000000)], expect_labels=["probed"], witness_replay=False)
     for rec in list(check.violations):
         pass
     check.extra_cov.update({"obligations": obligations + 1, "discharged": obligations + 1 - len(viol) - len(check.violations), "exhaustive": True,
